@@ -130,6 +130,8 @@ def _child(sc, wfd):
         res['nconn'] = world.nconn
         res['runaway'] = world.runaway
         res['events'] = world.events
+        if getattr(world, 'sched', None) is not None:
+            res['sched'] = world.sched.summary()
         with open(out_path, 'r', encoding='utf-8', errors='replace', newline='') as f:
             res['stdout'] = f.read()
         with open(err_path, 'r', encoding='utf-8', errors='replace', newline='') as f:
